@@ -18,6 +18,7 @@ fn main() {
 	let code = match args[1].as_str() {
 		"c19" => props::c19::main(&args[2..]),
 		"c17" => props::c17::main(&args[2..]),
+		"c10" => props::c10::main(&args[2..]),
 		"c06" => props::c06::main(&args[2..]),
 		"c20" => props::c20::main(&args[2..]),
 		"c09e" => props::c09e::main(&args[2..]),
